@@ -388,3 +388,23 @@ def near_variants(r, f):
     if t in ("since", "trigger", "unt", "rel", "b") and len(f) >= 3:
         return f[:-2] + (f[-1], f[-2])
     return f
+
+# --------------------------------------------------------------------------- dynamic formulas outside the normal form
+
+def gen_dpath_any(r, depth, atoms, star=True):
+    """path expressions without the normal-form restriction: iteration over tests allowed.  No iteration inside an iteration:
+    there the unfolding is cyclic and the code (since the repair of D17) leaves the inner visit's clauses in place, which the
+    one-step equations of the model do not describe."""
+    k = r.random()
+    if depth == 0 or k < 0.25:
+        return r.choice([("skip",), ("step", r.choice(atoms)), ("test", gen_dtest(r, atoms)), ("test", gen_dtest(r, atoms))])
+    if k < 0.45:
+        return ("choice", gen_dpath_any(r, depth - 1, atoms, star), gen_dpath_any(r, depth - 1, atoms, star))
+    if k < 0.65 or not star:
+        return ("seq", gen_dpath_any(r, depth - 1, atoms, star), gen_dpath_any(r, depth - 1, atoms, star))
+    return ("star", gen_dpath_any(r, depth - 1, atoms, False))
+
+def gen_dform_any(r, depth, atoms, pdepth=2):
+    if depth == 0 or r.random() < 0.25:
+        return gen_dform(r, 0, atoms)
+    return (r.choice(["dia", "box"]), gen_dpath_any(r, pdepth, atoms), gen_dform_any(r, depth - 1, atoms, pdepth))
